@@ -382,8 +382,12 @@ func runC03(c *runCfg) error {
 			raw = append(raw, mSync()...)
 			cs = flatCase(i, "surplus", cfg, raw, nil)
 		}
+		if i%5 == 1 && !cs.cfg.tls {
+			// negotiation prefix: an SSLRequest answered 'N', then the same stream
+			cs = flatCase(i, "ssl_n_seg", cs.cfg, cat(sslRequest(), cs.raw), nil)
+		}
 		raw := cs.raw
-		variants := [][]int{nil, bytewise(len(raw))}
+		variants := [][]int{nil, bytewise(len(raw)), {8}, {9}, {7, 2}, {8 + len(stdStartup)}}
 		// split inside every header of the first few messages
 		variants = append(variants, []int{len(stdStartup) + 1, 2, 1, 3}, []int{1, 3, len(stdStartup) - 2, 3})
 		for k := 0; k < 4; k++ {
